@@ -20,6 +20,7 @@ from liquid2.builtin import parse_positional_and_keyword_arguments
 from liquid2.builtin import parse_string_or_identifier
 from liquid2.undefined import Undefined
 from liquid2.undefined import is_undefined
+from liquid2.unescape import quote_identifier
 
 if TYPE_CHECKING:
     from liquid2 import RenderContext
@@ -70,7 +71,8 @@ class MacroNode(Node):
         assert isinstance(self.token, TagToken)
         args = " " + ", ".join(str(p) for p in self.args.values()) if self.args else ""
         return (
-            f"{{%{self.token.wc[0]} macro {self.name}{args} {self.token.wc[1]}%}}"
+            f"{{%{self.token.wc[0]} macro {quote_identifier(self.name)}{args} "
+            f"{self.token.wc[1]}%}}"
             f"{self.block}"
             f"{{%{self.end_tag_token.wc[0]} endmacro {self.end_tag_token.wc[1]}%}}"
         )
@@ -150,7 +152,10 @@ class CallNode(Node):
         args = " " + ", ".join(
             [*(str(arg) for arg in self.args), *(str(arg) for arg in self.kwargs)]
         )
-        return f"{{%{self.token.wc[0]} call {self.name}{args} {self.token.wc[1]}%}}"
+        return (
+            f"{{%{self.token.wc[0]} call {quote_identifier(self.name)}{args} "
+            f"{self.token.wc[1]}%}}"
+        )
 
     def render_to_output(self, context: RenderContext, buffer: TextIO) -> int:
         """Render the node to the output buffer."""
